@@ -72,21 +72,25 @@ Theorem C11_bus_phase_sum_is_total : forall els, q3sum (bus_pq_3ph els) == signe
 Proof. exact bus_phase_sum_is_total. Qed.
 Print Assumptions C11_bus_phase_sum_is_total.
 
-(* per-phase nodal balance at the ext_grid bus needs the ext_grid's sequence current to be the current that leaves the
-   bus into the branches.  Full statement (for every sequence network): false of the implementation, which subtracts the
-   NEGATIVE-sequence ext_grid admittance also from the ZERO-sequence reference bus (runpp_3ph.py:547-548) ... *)
-Theorem C11_ext_grid_current_refuted :
-  exists y0 y2 v i, i ==c Copp (Cmul y0 v) /\ ~ eg_seq_current_reported y0 y2 v i ==c i.
-Proof. exact eg_current_refuted. Qed.
-Print Assumptions C11_ext_grid_current_refuted.
-(* ... it reports -y2*v instead of -y0*v ... *)
-Theorem C11_ext_grid_current_faithful : forall y0 y2 v i, i ==c Copp (Cmul y0 v) ->
-  eg_seq_current_reported y0 y2 v i ==c Copp (Cmul y2 v).
-Proof. exact eg_current_faithful. Qed.
-Print Assumptions C11_ext_grid_current_faithful.
-(* ... and is right when both admittances coincide (guard G11_eg: x0x_max = 1, r0x0_max = rx_max) *)
-Theorem C11_ext_grid_current_partial : forall y0 y2 v i, G11_eg y0 y2 = true -> eg_seq_current_reported y0 y2 v i ==c i.
-Proof. exact eg_current_partial. Qed.
-Print Assumptions C11_ext_grid_current_partial.
+(* per-phase nodal balance at the ext_grid bus needs the ext_grid's zero sequence current to be the current that leaves
+   the bus into the branches: true for every admittance, voltage and current after the repair
+   "fix: runpp_3ph removes the zero sequence ext_grid admittance from the zero sequence network" *)
+Theorem C11_ext_grid_zero_seq_current : forall y0 v i, eg_zero_seq_current y0 v i ==c i.
+Proof. exact eg_current_full. Qed.
+Print Assumptions C11_ext_grid_zero_seq_current.
+
+(* the rule before the repair subtracted the NEGATIVE sequence admittance y2: it reported -y2*v instead of -y0*v
+   (regression witness) and was right only for y0 = y2 (x0x_max = 1, r0x0_max = rx_max) *)
+Theorem C11_ext_grid_current_old_refuted :
+  exists y0 y2 v i, i ==c Copp (Cmul y0 v) /\ ~ eg_zero_seq_current_old y0 y2 v i ==c i.
+Proof. exact eg_current_old_refuted. Qed.
+Print Assumptions C11_ext_grid_current_old_refuted.
+Theorem C11_ext_grid_current_old_faithful : forall y0 y2 v i, i ==c Copp (Cmul y0 v) ->
+  eg_zero_seq_current_old y0 y2 v i ==c Copp (Cmul y2 v).
+Proof. exact eg_current_old_faithful. Qed.
+Print Assumptions C11_ext_grid_current_old_faithful.
+Theorem C11_ext_grid_current_old_partial : forall y0 y2 v i, G11_eg y0 y2 = true -> eg_zero_seq_current_old y0 y2 v i ==c i.
+Proof. exact eg_current_old_partial. Qed.
+Print Assumptions C11_ext_grid_current_old_partial.
 Example C11_ext_grid_current_nonvacuous : G11_eg (mkC (3 # 4) (-15 # 4)) (mkC (3 # 4) (-15 # 4)) = true.
 Proof. reflexivity. Qed.
